@@ -2,7 +2,8 @@
 
 Widened after the seeded-change review: memory layouts / dtypes of the history tensor, idx spellings,
 constructor spellings, torch.save round trip, every entry x option of parse_arpa_lm, corrupt ARPA files
-(see design_notes/C06.md, "Seeded changes").
+(see design_notes/C06.md, "Seeded changes"). Round g: state dicts loaded into receiving instances of every kind
+(default / built on lower, equal, higher order tables / after earlier loads), see `gen_loads`.
 
 Correspondence: a table (list of dicts, lowest order first) is handed to the real
 `LookupLanguageModel(V, sos, prob_dicts)` and to the Lean model `buildTrie`; the four flat
@@ -453,10 +454,10 @@ def katz_full(dicts, V, src_sos, sos, hist, B):
     return out
 
 
-def load_kind(case):
-    """The class of the receiving instance relative to the model loaded last (tags / messages)."""
+def load_kind(case, N=None):
+    """The class of the receiving instance relative to a loaded model of order N (default: the one loaded last)."""
     tg = case["loads"]["target"]
-    N = len(case["dicts"])
+    N = len(case["dicts"]) if N is None else N
     if tg["dicts"] is None:
         return "default"
     n = len(tg["dicts"])
@@ -564,7 +565,16 @@ class C06(PropertyCheck):
             "the start-symbol classes outside/inside x first/later, tables that mention the out-of-vocabulary "
             "symbol or not, a rejected construction before/after an accepted one, a destructive one last / in the "
             "middle): buffers and log-probabilities of every model against the Lean heap model and the Katz "
-            "recursion on the table the caller then holds; a DESIGNED-SPARSITY stream for the two paths of the "
+            "recursion on the table the caller then holds; LOADING INTO INSTANCES OF EVERY KIND: the model's state dict "
+            "(serialised / handed over / cloned) loaded into a receiving instance that is default-constructed or "
+            "constructed (any non-destructive spelling) from another table of order 1..4 - lower, equal, higher order, "
+            "other sparsity, another start symbol of the same class (inside / outside the vocabulary) - and that loaded "
+            "zero, one or two other models before (orders going up or down); after EVERY load of the chain the instance "
+            "must answer like Katz back-off on the table of the model just loaded (all positions, chunk size 2, "
+            "per-element idx), state_dict() must equal the saved one (keys, dtypes, shapes, values) and max_ngram / "
+            "max_ngram_nodes / max_direct_descendants the saved model's (complete stream saved order 1..3 [1..4 "
+            "thorough] x receiving instance default / order 1..4 x 0, 1, 2 earlier loads + 25% of the random table "
+            "cases); a DESIGNED-SPARSITY stream for the two paths of the "
             "lookup's descent (for one window: the context path alive down to depth dc - contexts listed with non-zero "
             "back-off weights - and every n-gram path dead below depth dn, nothing else in the table resurrecting "
             "either, finite unigrams; every pair (dc, dn) for order 4 [2..6 thorough], pairs two or more levels apart "
@@ -590,6 +600,10 @@ class C06(PropertyCheck):
         "slot of a window and below 256 (the code indexes the unigram level with the most recent token and casts "
         "the window to the id dtype)",
         "ARPA: the three regular expressions and float() of the reader are exercised by correspondence only",
+        "loads into used instances: the oracle for the models loaded BEFORE the case's own one is the Katz recursion "
+        "in Python fractions (`katz_full`, cross-checked against the Lean spec on the case's own table in every such "
+        "case); the receiving instance has no Lean object model (its shape attributes after loading the case's model "
+        "are compared with Lean's `inferShape`)",
         "caller-owned objects: Python/torch equality of an object with a deep copy taken before the call is what "
         "'unchanged' means (table: list length, element identity, dict contents, value types, key order; tensors: "
         "whole storage, shape, strides, offset, dtype); the Lean heap model `buildTrieMem` predicts the table's "
@@ -1475,7 +1489,7 @@ class C06(PropertyCheck):
             where = (f"order-{N} model loaded ({ld['via']}) into {held}"
                      + (f" that had loaded models of order {prev} before" if prev else "")
                      + (f" (start symbol {tg['sos']}, the saved model's {ssos})" if tg["sos"] != ssos else ""))
-            tag = "@target=" + load_kind(case) + ("" if not prev else "+chain")
+            tag = "@target=" + load_kind(case, N) + ("" if not prev else "+chain")
             if "load_error" in o:
                 fails.append((f"{where}: load_state_dict raised {o['load_error']}", "C06.load_state_dict.raises" + tag))
                 continue
